@@ -301,8 +301,8 @@ class BPlusTreeMap:
         if not child.is_underfull():
             return
 
-        # Handle empty children by merging them (they can't redistribute)
-        if len(child) == 0:
+        # Handle empty leaves by merging them (they can't redistribute)
+        if len(child) == 0 and child.is_leaf():
             self._merge_with_sibling(parent, child_index)
             return
 
